@@ -28,6 +28,7 @@ func runC03(c *fw.Ctx) {
 	r33(c)
 	r34(c)
 	methodExprReceiver(c, "R3.5")
+	r36(c)
 }
 
 // typeTable: container kind -> canonical (key, elem) pairs returned.
